@@ -114,6 +114,43 @@ def reads_are_not_writes(chk, rng, b, ci, inp0):
                 break
 
 
+def inplace_presence(chk, rng, b, ci, inp0):
+    """set 'via attribute assignment' also means assignment INSIDE: a plain sub-message reached through
+    `m.sub.inner.x = 1` / `m.sub.items.append(1)` is emitted, and serialized_on_wire must report it (D46)"""
+    from props.c09 import fill_inplace
+    cls, md = b.classes[ci], b.schema[ci]
+    for _ in range(3):
+        v = bpgen.gen_msg(rng, b.schema, ci, 2)
+        try:
+            m = cls()
+            t = fill_inplace(m, b, ci, v, rng)
+            data = bytes(m)
+        except Exception as e:
+            chk.count("inplace_skipped_" + type(e).__name__)
+            continue
+        nums = [r[0] for r in WS.split(data)]
+        inp = dict(inp0, built_in_place=t, stage="in-place assignment")
+        chk.case(b.schema_line() + "|inplace|" + t, bool(data), {"stage": "in-place", "built": t[:160]})
+        chk.count("inplace_presence")
+        for f in md.fields:
+            if f.ty == "message" and not f.wraps and not f.repeated and f.kind.startswith("u") and f.group is None and not f.optional:
+                sub = m._Message__raw_get(f.name)
+                if not isinstance(sub, betterproto.Message):
+                    continue
+                ow = betterproto.serialized_on_wire(sub)
+                emitted = f.num in nums
+                if emitted != ow:
+                    chk.fail("submessage-emission-differs-from-serialized_on_wire", dict(inp, field=f.name), "emitted=%s onwire=%s bytes=%s" % (emitted, ow, data.hex()))
+        try:
+            back = cls().parse(data)
+            got, want = bp_presence(back, md), ref_presence(b.refs[ci], data, md)
+            for name in want:
+                if name in got and got[name] != want[name]:
+                    chk.fail("presence-differs-from-reference", dict(inp, checked=name), "betterproto=%s reference=%s bytes=%s" % (got[name], want[name], data.hex()))
+        except Exception as e:
+            chk.fail("decode-or-reference-raises", inp, repr(e))
+
+
 def run(chk, drv):
     quick = chk.tier == "quick"
     rng = chk.rng
@@ -149,6 +186,7 @@ def run(chk, drv):
                     chk.fail("fresh-field-not-default", dict(inp0, field=f.name), repr(v))
             chk.case(b.schema_line() + "fresh%d" % ci, False)
             reads_are_not_writes(chk, rng, b, ci, inp0)
+            inplace_presence(chk, rng, b, ci, inp0)
             # ---- the matrix
             lines, wants = [], []
             for i, f in enumerate(md.fields):
@@ -230,6 +268,18 @@ def run(chk, drv):
                     got = r.split(" | ")[-1]
                     if got != want:
                         chk.disagree("presence-matrix", ln, r, want)
+
+
+def replay_known(chk, entry):
+    if (entry.get("witness") or {}).get("kind") == "unmarked-submessage":
+        # D46b (fixed): something assigned INSIDE a plain sub-message: it is emitted, serialized_on_wire must say so
+        schema = [bpgen.M("M0", [bpgen.F("a", 1, "message", kind="u1")]),
+                  bpgen.M("M1", [bpgen.F("b", 1, "message", kind="u2")]), bpgen.M("M2", [bpgen.F("x", 1, "int32")])]
+        O, B, C = bpgen.build_bp(schema)
+        m = O()
+        m.a.b.x = 1
+        return bool(bytes(m)) and not betterproto.serialized_on_wire(m.a)
+    return False
 
 
 def classify(failure, known):
